@@ -190,6 +190,8 @@ class EnumAnalysis:
 
     # ---- contributions -----------------------------------------------------
     def _is_label(self, e):
+        if isinstance(e, ast.Name) and e.id in getattr(self, 'label_names', ()):
+            return True
         return isinstance(e, ast.Attribute) and e.attr == 'label_column' and isinstance(e.value, ast.Name) and e.value.id == self.args
 
     def contributions(self, e, env):
@@ -222,6 +224,24 @@ class EnumAnalysis:
                         r = ast.unparse(k.value)
                 kind = {'itertools.combinations_with_replacement': 'cwr', 'itertools.combinations': 'comb', 'itertools.product': 'product', 'itertools.permutations': 'perm'}[d]
                 return [Contribution(kind, cs or f'?{ast.unparse(e.args[0])}', r, None, ast.unparse(e), e)]
+        # the upper triangle written out: [(a, b) for i, a in enumerate(L) for b in L[i:]]  (L[i + 1:] leaves out the diagonal)
+        if isinstance(e, ast.ListComp) and len(e.generators) == 2 and isinstance(e.elt, ast.Tuple) and len(e.elt.elts) == 2 and not e.generators[0].ifs and not e.generators[1].ifs:
+            g0, g1 = e.generators
+            if (isinstance(g0.iter, ast.Call) and isinstance(g0.iter.func, ast.Name) and g0.iter.func.id == 'enumerate' and len(g0.iter.args) == 1 and not g0.iter.keywords and isinstance(g0.target, ast.Tuple)
+                    and len(g0.target.elts) == 2 and all(isinstance(x, ast.Name) for x in g0.target.elts) and isinstance(g1.target, ast.Name) and isinstance(g1.iter, ast.Subscript) and isinstance(g1.iter.slice, ast.Slice)
+                    and g1.iter.slice.upper is None and g1.iter.slice.step is None and ast.unparse(g1.iter.value) == ast.unparse(g0.iter.args[0])
+                    and [x.id if isinstance(x, ast.Name) else None for x in e.elt.elts] == [g0.target.elts[1].id, g1.target.id]):
+                i_ = g0.target.elts[0].id
+                lo = g1.iter.slice.lower
+                kind = None
+                if isinstance(lo, ast.Name) and lo.id == i_:
+                    kind = 'cwr'
+                elif isinstance(lo, ast.BinOp) and isinstance(lo.op, ast.Add) and {ast.unparse(lo.left), ast.unparse(lo.right)} == {i_, '1'}:
+                    kind = 'comb'
+                base = g0.iter.args[0]
+                cs = self.colset(base, env)
+                if kind and cs is not None:
+                    return [Contribution(kind, cs, 2, None, ast.unparse(e), e)]
         if isinstance(e, ast.ListComp) and len(e.generators) == 1:
             g = e.generators[0]
             # filter of an enumerator: [x for x in ENUM if <label in x>]
@@ -269,8 +289,17 @@ class EnumAnalysis:
                 cs = self.contributions(s.value, env) if s.value is not None else []
                 self.paths.append((conds, cs, s))
                 return
+            if isinstance(s, ast.Assign) and len(s.targets) == 1 and isinstance(s.targets[0], ast.Name) and self._is_label(s.value):
+                if not hasattr(self, 'label_names'):
+                    self.label_names = set()
+                self.label_names.add(s.targets[0].id)      # a local name for args.label_column
+                continue
+            if isinstance(s, ast.Assert):
+                continue
             if isinstance(s, ast.Assign) and len(s.targets) == 1 and isinstance(s.targets[0], ast.Name):
                 name = s.targets[0].id
+                if name in getattr(self, 'label_names', ()):
+                    self.label_names.discard(name)         # re-bound to something else
                 cs = self.colset(s.value, env)
                 if cs is not None and not (isinstance(s.value, ast.Call) and self.m.dotted(s.value.func, ) and str(self.m.dotted(s.value.func)).startswith('itertools.')):
                     env[name] = ('set', cs)
